@@ -666,6 +666,8 @@ def o_c17(term, t, op, pre, post, res, fails):
         exp = src[CHARS][k] if 0 <= k < n else []
         if texts(got) != texts(exp):
             fails.append({'oracle': 'C17.settings_at', 'step': t, 'msg': 'ansi_settings_at(%d) = %s, per-character table says %s' % (k, texts(got), texts(exp))})
+        if len(res[2]) > 2 and res[2][2] != ';'.join(texts(got)):
+            fails.append({'oracle': 'C17.settings_at_str', 'step': t, 'msg': "settings_at(%d) = %r is not the ';'-join of ansi_settings_at(%d) = %s" % (k, res[2][2], k, texts(got))})
     # find_settings is checked in checks/c17 where the scrubbed settings are known
 
 
